@@ -172,3 +172,31 @@ fn replay(_sub: &str, case: &Json) -> Option<CaseResult> {
     for_each_type(&mut r);
     r.out
 }
+
+struct FuzzPick<'a, 'b> {
+    f: &'a mut FuzzIn<'b>,
+    idx: usize,
+    at: usize,
+    out: Option<CaseResult>,
+}
+
+impl<'a, 'b> TypeVisitor for FuzzPick<'a, 'b> {
+    fn visit<T: FamType>(&mut self, name: &'static str, strat: BS<T>) {
+        let me = self.at;
+        self.at += 1;
+        if me != self.idx {
+            return;
+        }
+        if let Some(x) = self.f.draw(&strat) {
+            self.out = Some(check_shape(name, &x));
+        }
+    }
+}
+
+/// libFuzzer entry: one type of the family, one generated value.
+pub fn fuzz(f: &mut FuzzIn) -> Option<CaseResult> {
+    let idx = f.draw(&(0usize..N_FAM_TYPES))?;
+    let mut p = FuzzPick { f, idx, at: 0, out: None };
+    for_each_type(&mut p);
+    p.out
+}
